@@ -860,6 +860,36 @@ ROUND2_MUTANTS = [
                 (CONSTR, "                yield from consume_bytes(self.size_max - self.size_already)\n                raise SizeConstraintExceededError(", "                yield from consume_bytes(self.size_remaining)\n                raise SizeConstraintExceededError("),
                 (CONSTR, "        yield WarningEvent(error=error)\n\n        yield from consume_bytes(self.size_max - self.size_already)", "        yield WarningEvent(error=error)\n\n        yield from consume_bytes(self.size_remaining)")]),
 ]
+MANUAL_READER = [
+    dict(id="c02-benign-manual-reader", props=ALL, benign=True,
+         edits=[(MARSHAL, "    size = tpm_type._int_size\n    data = []\n", "    size = tpm_type._int_size\n"),
+                (MARSHAL, """    for _ in range(size):
+        byte = yield None
+        data.append(byte)
+    value = int.from_bytes(data, byteorder="big", signed=tpm_type._signed)
+""", """    value = 0
+    for _ in range(size):
+        byte = yield None
+        value = (value << 8) | byte
+    if tpm_type._signed:
+        if value >= 1 << (8 * size - 1):
+            value -= 1 << (8 * size)
+""")]),
+    dict(id="c02-manual-reader-off-by-one", props=["C01", "C02"], rule="B1", names="signed",
+         edits=[(MARSHAL, "    size = tpm_type._int_size\n    data = []\n", "    size = tpm_type._int_size\n"),
+                (MARSHAL, """    for _ in range(size):
+        byte = yield None
+        data.append(byte)
+    value = int.from_bytes(data, byteorder="big", signed=tpm_type._signed)
+""", """    value = 0
+    for _ in range(size):
+        byte = yield None
+        value = (value << 8) | byte
+    if tpm_type._signed and value > 1 << (8 * size - 1):
+        value -= 1 << (8 * size)
+""")]),
+]
+MUTANTS += MANUAL_READER
 MUTANTS += ROUND2_MUTANTS
 
 LOGGING_TWIN = [
